@@ -72,9 +72,14 @@ pub struct Acc {
     pub distinct: HashSet<u64>,
     pub samples: Vec<Value>,
     pub violations: Vec<Violation>,
+    pub known_violations: Vec<Violation>,
     pub inconclusive: Vec<String>,
     pub evaluations: u64,
     pub sample_cap: usize,
+    /// signatures listed as status=known in known_findings.json: reported once, not
+    /// counted against per-shard violation caps
+    pub known: HashSet<String>,
+    known_reported: HashSet<String>,
 }
 
 impl Acc {
@@ -108,8 +113,16 @@ impl Acc {
         }
     }
     pub fn violation(&mut self, signature: impl Into<String>, case: u64, detail: Value) {
+        let signature = signature.into();
+        if self.known.contains(&signature) {
+            self.count("known_finding_hits");
+            if self.known_reported.insert(signature.clone()) {
+                self.known_violations.push(Violation { signature, case, detail });
+            }
+            return;
+        }
         if self.violations.len() < 200 {
-            self.violations.push(Violation { signature: signature.into(), case, detail });
+            self.violations.push(Violation { signature, case, detail });
         }
         self.count("violations_seen");
     }
@@ -186,6 +199,9 @@ pub fn run_shard(mon: &dyn Monitor, tier: Tier, seed: u64, first: u64, step: u64
         replaying: false,
     };
     let mut acc = Acc::new();
+    if let Ok(k) = load_known(&ctx.verif_root, mon.id()) {
+        acc.known = k.into_iter().filter(|k| k.status == "known").map(|k| k.signature).collect();
+    }
     let started = Instant::now();
     let mut case = first;
     let mut ncases = 0u64;
@@ -201,7 +217,7 @@ pub fn run_shard(mon: &dyn Monitor, tier: Tier, seed: u64, first: u64, step: u64
 
 fn write_shard(acc: &Acc, out: &Path, wall: f64) {
     let mut viol = Vec::new();
-    for v in &acc.violations {
+    for v in acc.violations.iter().chain(acc.known_violations.iter()) {
         viol.push(json!({"signature": v.signature, "case": v.case, "detail": v.detail}));
     }
     let doc = json!({
@@ -446,6 +462,14 @@ pub fn run_parent(mon: &dyn Monitor, tier: Tier, seed: u64) -> i32 {
     coverage.insert("evaluations".into(), json!(merged.evaluations));
     coverage.insert("distinct_nontrivial".into(), json!(distinct));
     coverage.insert("rule".into(), json!(mon.rule()));
+    if merged.samples.is_empty() {
+        // every run must show at least one explored case: fall back to a violating one
+        if let Some(v) = merged.violations.first() {
+            merged.samples.push(json!({"case": v.case, "violating_case_signature": v.signature, "detail": v.detail}));
+        } else {
+            merged.samples.push(json!({"note": "no case ran to completion in this run"}));
+        }
+    }
     coverage.insert("samples".into(), Value::Array(merged.samples.clone()));
     if mon.exhaustive(tier) {
         coverage.insert("exhaustive".into(), json!(true));
